@@ -56,6 +56,23 @@ def findap_part(run, np, cc):
                 outs[name] = [-1]
                 outs[name + "_exc"] = repr(ex)
         run.case((tuple(y), stol2), nontrivial=len(y) >= 3, part="findap")
+        # the selection depends on the ORDER of the samples and on differences relative to the largest one only: the same signal as
+        # narrow integers (adjacent steps whose product overflows the type), as float32 and at a scale where products of steps
+        # underflow must give the same selection (compared where no step ties with the tolerance: odd stol2)
+        if len(y) > 2 and md > 0 and (stol2 % 2 == 1 or stol2 == 0) and "vec_exc" not in outs:
+            yi = np.array(y)
+            images = (("int16 x300", (yi * 300 - 450).astype(np.int16)), ("int32 x50000", (yi * 50000).astype(np.int32)),
+                      ("float32", (yi * 0.5 - 1.0).astype(np.float32)), ("float64 x1e-170", yi * 1e-170))
+            for iname, img in images:
+                for name, fn in (("vec", cc.findap), ("loop", loopfn)):
+                    try:
+                        sel = [int(b) for b in fn(img.copy(), tol)]
+                    except Exception as ex:
+                        sel = repr(ex)
+                    if sel != outs[name]:
+                        run.violation("findap (%s) selects %r for the signal given as %s and %r for the same signal as float64" % (
+                            "default, vectorised" if name == "vec" else "loop/numba body", sel, iname, outs[name]),
+                            {"y": y, "stol2": stol2, "image": iname}, {"fn": "findap", "variant": name, "image": iname})
         rec = {"y": y, "stol2": stol2, "vec": outs["vec"], "loop": outs["loop"], "mvec": mvec, "mloop": mloop,
                "mreqv": mreqv, "mreql": mreql, "exc": {k: v for k, v in outs.items() if k.endswith("_exc")}}
         if outs["vec"] == mvec and outs["loop"] == mloop:
